@@ -72,8 +72,8 @@ PickLimit ==
     /\ pc = "pick"
     /\ IF CramUnsupported
        THEN exit' = 1 /\ pc' = "done" /\ UNCHANGED <<lim, isGlobal>>
-       ELSE /\ lim' = MinDefined(IF Script(sc, d) THEN None ELSE CurTc.t, Left)
-            /\ isGlobal' = (Left # None /\ (CurTc.t = None \/ Script(sc, d) \/ Left <= CurTc.t))
+       ELSE /\ lim' = MinDefined(IF Script(sc, d) THEN None ELSE OwnT(sc, d, CurTc), Left)
+            /\ isGlobal' = (Left # None /\ (OwnT(sc, d, CurTc) = None \/ Script(sc, d) \/ Left <= OwnT(sc, d, CurTc)))
             /\ pc' = "run" /\ UNCHANGED exit
     /\ UNCHANGED <<sc, d, k, clock, status, outs, res, ran, wall>>
 
